@@ -75,6 +75,8 @@ class World:
         return file, group, mode
 
     def apply(self, op: dict):
+        if self.ctx.shrink_expired():
+            return      # shrink budget used up: remaining shrink attempts become no-ops (see core.run_given)
         self.history.append(op)
         try:
             getattr(self, "op_" + op["op"])(op)
